@@ -124,7 +124,8 @@ func (k Keeper) CheckAndCloseAtStopLoss(parentCtx sdk.Context, mtp *types.MTP, p
 			return fmt.Errorf("mtp stop loss price is not <=  token price")
 		}
 	} else {
-		underStopLossPrice := !mtp.StopLossPrice.IsNil() && tradingAssetPrice.GTE(mtp.StopLossPrice)
+		// a stop loss price of zero means "not set" (MsgUpdateStopLoss stores it as is)
+		underStopLossPrice := !mtp.StopLossPrice.IsNil() && mtp.StopLossPrice.IsPositive() && tradingAssetPrice.GTE(mtp.StopLossPrice)
 		if !underStopLossPrice {
 			return fmt.Errorf("mtp stop loss price is not =>  token price")
 		}
